@@ -28,7 +28,7 @@ class Proj:
         out, foreign = {}, []
         for sub, amt in container.contents.items():
             s = self.inst.model_name(sub)
-            if s is None or self.inst.subs[s] != sub:
+            if s is None or self.inst.subs[s] != sub or (sub.specific_activity or 0) != (self.inst.subs[s].specific_activity or 0):
                 foreign.append(sub.name)
             else:
                 out[s] = out.get(s, 0.0) + amt
